@@ -183,6 +183,29 @@ def run(rep):
             impl = call(qcd, p, nf, r2, as0, r20)
             lines.append('c15.as2pf %d %s %s %s %s' % (p, f2hex(nf), f2hex(r2), f2hex(as0), f2hex(r20)))
             meta.append(dict(kind='as2pf.box', p=p, nf=nf, r2=r2, as0=as0, r20=r20, impl=impl))
+    # chains in which exactly ONE of the five arguments changes from one call to the next (r20, as0, r2, nf, p)
+    for _ in range(60 * mult):
+        p, nf, as0, r20, ratio = box_case(rng)
+        r2 = r20 * ratio
+        for _step in range(8):
+            what = rng.choice(['r20', 'as0', 'r2', 'nf', 'p'])
+            p2, nf2, as02, r202, ratio2 = box_case(rng)
+            if what == 'r20' and not (0.2 <= r2 / r202 <= 1e6):
+                what = 'r2'                                   # would leave the property's box
+            if what == 'r20':
+                r20 = r202
+            elif what == 'as0':
+                as0 = as02
+            elif what == 'r2':
+                r2 = r20 * ratio2
+            elif what == 'nf':
+                nf = nf2
+            else:
+                p = 1 - p
+            rep.hist('chain.changed', what)
+            impl = call(qcd, p, nf, r2, as0, r20)
+            lines.append('c15.as2pf %d %s %s %s %s' % (p, f2hex(nf), f2hex(r2), f2hex(as0), f2hex(r20)))
+            meta.append(dict(kind='as2pf.box', p=p, nf=nf, r2=r2, as0=as0, r20=r20, impl=impl))
     # reference scale exactly
     for p in (0, 1):
         for nf in (3, 4, 5, 6):
